@@ -110,6 +110,10 @@ type spec struct {
 	// connected at the start (nil: all)
 	Steps []loopStep `json:"steps,omitempty"`
 	Conn  []int64    `json:"conn,omitempty"`
+	// HU, HR (hand.go): the schedule of the real hand-off, and what was
+	// handed to OnRead / received by the round's callback
+	Hand   *handSpec   `json:"hand,omitempty"`
+	Rounds []HandRound `json:"rounds,omitempty"`
 
 	Obs string `json:"obs,omitempty"`
 	Sig string `json:"sig,omitempty"`
@@ -118,6 +122,7 @@ type spec struct {
 type result struct {
 	sp      spec
 	term    string // Gallina case term ("" if the case could not run)
+	hand    string // HU / HR: the rounds of the hand-off (term of ReplayHand.v)
 	sig     string
 	nontriv bool
 	fail    *c.ImplFailure
@@ -475,9 +480,15 @@ func runU(sp *spec) (res result) {
 		panic(err)
 	}
 	w := setupWorld(sp, ch, in)
-	bm, err := neutrino.VerifC03New(neutrino.VerifC03Config{ChainParams: caseParams(sp.ID),
-		BlockHeaders: e.BS, RegFilterHeaders: e.FS, Respond: w.respond, GetBlock: w.getBlock, BanPeer: w.banPeer})
-	if err != nil {
+	ucfg := neutrino.VerifC03Config{ChainParams: caseParams(sp.ID),
+		BlockHeaders: e.BS, RegFilterHeaders: e.FS, Respond: w.respond, GetBlock: w.getBlock, BanPeer: w.banPeer}
+	var bm *neutrino.VerifC03BM
+	var hc *handCtl
+	if sp.Hand != nil {
+		var closeH func()
+		bm, hc, closeH = newHandBM(sp, w, ucfg)
+		defer closeH()
+	} else if bm, err = neutrino.VerifC03New(ucfg); err != nil {
 		panic(err)
 	}
 	defer bm.Quit()
@@ -496,6 +507,10 @@ func runU(sp *spec) (res result) {
 	res.sp.Obs = obs
 	res.sig = fmt.Sprintf("U:p%d:l%s:e%v:b%d", len(sp.Peers), lieSig(sp), gerr != nil, len(bans))
 	res.nontriv = hasLiar(sp)
+	if hc != nil {
+		res.hand, res.sp.Rounds = hc.term(), hc.rnds
+		res.sig = "H" + res.sig + fmt.Sprintf(":k%d:h%d:%s", min(sp.Hand.Burst, 9), sp.Hand.Hold, sp.Hand.Order)
+	}
 	return res
 }
 
@@ -712,9 +727,16 @@ func runR(sp *spec) (res result) {
 	}
 	w := setupWorld(sp, ch, in)
 	params := caseParams(sp.ID)
-	bm, err := neutrino.VerifC03New(neutrino.VerifC03Config{ChainParams: params,
-		BlockHeaders: e.BS, RegFilterHeaders: e.FS, Respond: w.respond, GetBlock: w.getBlock, BanPeer: w.banPeer})
-	if err != nil {
+	rcfg := neutrino.VerifC03Config{ChainParams: params,
+		BlockHeaders: e.BS, RegFilterHeaders: e.FS, Respond: w.respond, GetBlock: w.getBlock, BanPeer: w.banPeer}
+	var bm *neutrino.VerifC03BM
+	var hc *handCtl
+	var err error
+	if sp.Hand != nil {
+		var closeH func()
+		bm, hc, closeH = newHandBM(sp, w, rcfg)
+		defer closeH()
+	} else if bm, err = neutrino.VerifC03New(rcfg); err != nil {
 		panic(err)
 	}
 	defer bm.Quit()
@@ -774,6 +796,10 @@ func runR(sp *spec) (res result) {
 	res.sig = fmt.Sprintf("R:t%d:f%d:p%d:l%s:h%s:s%v:ok%v:b%d", sp.Tip/1000, sp.FTip/500, len(sp.Peers), lieSig(sp),
 		sp.HardKind, sp.StoreLieFrom > 0, rerr == nil, len(bans))
 	res.nontriv = hasLiar(sp)
+	if hc != nil {
+		res.hand, res.sp.Rounds = hc.term(), hc.rnds
+		res.sig = "H" + res.sig + fmt.Sprintf(":k%d:h%d:%s", min(sp.Hand.Burst, 9), sp.Hand.Hold, sp.Hand.Order)
+	}
 	if w.queries > 1 {
 		res.fail = &c.ImplFailure{Case: fmt.Sprint(sp.ID), What: "more than one getcfheaders query in resolveConflict", Tag: "c03-harness-assumption"}
 	}
@@ -1302,9 +1328,9 @@ func runSpec(sp *spec) (res result) {
 		switch sp.Family {
 		case "S":
 			done <- runS(sp)
-		case "U":
+		case "U", "HU":
 			done <- runU(sp)
-		case "R":
+		case "R", "HR":
 			done <- runR(sp)
 		case "C":
 			done <- runC(sp)
@@ -1350,9 +1376,14 @@ func main() {
 	fx.setup(base)
 
 	nS, nU, nR, nC, nA := 14, 26, 18, 8, 80
+	nHU, nHR := 12, 3
 	if a.Tier == "thorough" {
 		nS, nU, nR, nC, nA = 300, 600, 360, 120, 800
+		nHU, nHR = 240, 40
 	}
+	// the real queryAllPeers of the HU / HR cases: their rounds are ended by
+	// the harness, the timeout is only a safety net
+	neutrino.QueryTimeout = 8 * time.Second
 	var specs []*spec
 	if a.Replay != "" {
 		var sp spec
@@ -1393,10 +1424,15 @@ func main() {
 		add(nU, genU)
 		add(nR, genR)
 		add(nC, genC)
+		// the families added later draw their ids from their own range, so
+		// that the cases above stay what they were
+		id = 20001
+		add(nHU, genHU)
+		add(nHR, genHR)
 	}
 	// hard-coded checkpoint tables are installed before anything runs
 	for _, sp := range specs {
-		if sp.Family == "R" && sp.HardKind != "" {
+		if (sp.Family == "R" || sp.Family == "HR") && sp.HardKind != "" {
 			chainsync.VerifSetFilterHeaderCheckpoints(caseParams(sp.ID).Net,
 				map[uint32]*chainhash.Hash{uint32(sp.HardAt): hardValue(sp)})
 		}
@@ -1420,7 +1456,7 @@ func main() {
 	wg.Wait()
 
 	distinct := c.Signatures{}
-	var terms []string
+	var terms, hterms []string
 	for i := range results {
 		rs := &results[i]
 		rs.sp.Sig = rs.sig
@@ -1431,8 +1467,22 @@ func main() {
 		if rs.fail != nil {
 			rep.ImplFailures = append(rep.ImplFailures, *rs.fail)
 		}
-		if rs.term != "" {
+		if rs.term != "" && rs.hand != "" {
+			hterms = append(hterms, fmt.Sprintf("(%d, (%s,\n  %s))", rs.sp.ID, rs.term, rs.hand))
+		} else if rs.term != "" {
 			terms = append(terms, fmt.Sprintf("(%d, %s)", rs.sp.ID, rs.term))
+		}
+		if rs.sp.Hand != nil {
+			rep.Histogram[fmt.Sprintf("handoff_rounds")] += len(rs.sp.Rounds)
+			for _, rd := range rs.sp.Rounds {
+				for _, e := range rd.Evs {
+					if e.K == 0 {
+						rep.Histogram["handoff_messages_handed_to_OnRead"]++
+					} else if e.K == 1 {
+						rep.Histogram["handoff_callback_invocations"]++
+					}
+				}
+			}
 		}
 		if rs.nontriv {
 			distinct.Add(rs.sig)
@@ -1475,9 +1525,18 @@ func main() {
 		c.WriteFile(filepath.Join(a.Out, fmt.Sprintf("cases_%d.v", shard)), sb.String())
 		shard++
 	}
+	for start := 0; start < len(hterms); start += 40 {
+		end := min(start+40, len(hterms))
+		var sb strings.Builder
+		sb.WriteString("From Coq Require Import ZArith List.\nFrom Verif Require Import S1.Model C03.Model C03.Spec C03.Replay C03.ReplayHand.\nImport ListNotations.\nOpen Scope Z_scope.\n")
+		sb.WriteString("Definition cases : list (Z * hcase) := [\n")
+		sb.WriteString(strings.Join(hterms[start:end], ";\n"))
+		sb.WriteString("].\nDefinition R := Eval vm_compute in (run_hcases cases).\nSet Printing Width 1000000.\nSet Printing Depth 1000000.\nPrint R.\n")
+		c.WriteFile(filepath.Join(a.Out, fmt.Sprintf("cases_h%d.v", start/40)), sb.String())
+	}
 	rep.Evaluations = len(results) + len(aux)
 	rep.DistinctNontrivial = len(distinct)
-	rep.Rule = "S: histories of block appends / writeCFHeadersMsg (valid and malformed messages) / rollBackToHeight on real stores, non-trivial = contains an append, a successful write and a rollback; U/R: getUncheckpointedCFHeaders / resolveConflict with 2-6 scripted peers, blocks with unusual output scripts (unparseable, oversized, empty, OP_RETURN-prefixed, coinbase) and witness inputs, real filters and doctored variants (omitting an ordinary / unusual / coinbase / spent script, extra element, old-style, other key), duels of 1-2 honest against 2-4 liars at one height, non-trivial = at least one peer deviates (lie in a filter hash, in a checkpoint, bad answer, silence); C: getCheckpointedCFHeaders with scripted arrivals, non-trivial = a peer was banned or the first interval is partial; distinct = distinct signature (family, sizes, sorted lie kinds per peer, outcome class)"
+	rep.Rule = "S: histories of block appends / writeCFHeadersMsg (valid and malformed messages) / rollBackToHeight on real stores, non-trivial = contains an append, a successful write and a rollback; U/R: getUncheckpointedCFHeaders / resolveConflict with 2-6 scripted peers, blocks with unusual output scripts (unparseable, oversized, empty, OP_RETURN-prefixed, coinbase) and witness inputs, real filters and doctored variants (omitting an ordinary / unusual / coinbase / spent script, extra element, old-style, other key), duels of 1-2 honest against 2-4 liars at one height, non-trivial = at least one peer deviates (lie in a filter hash, in a checkpoint, bad answer, silence); HU/HR: the same two functions with the REAL ChainService.queryAllPeers and ServerPeer.OnRead between the peers' messages and the round's callback (hook VerifC03NewHand): per round one message occupies the callback, which is held busy while the first deviating peer hands over its answer and a burst of len(peers)+1..+8 unrelated messages (ping / inv / pong), then the other peers hand over their answers (or everything shuffled), then the callback is released; every message handed to OnRead and every callback invocation is recorded; C: getCheckpointedCFHeaders with scripted arrivals, non-trivial = a peer was banned or the first interval is partial; distinct = distinct signature (family, sizes, sorted lie kinds per peer, outcome class)"
 	for i := 0; i < len(results) && len(rep.Samples) < 3; i += 1 + len(results)/3 {
 		rep.Samples = append(rep.Samples, results[i].sp)
 	}
